@@ -106,7 +106,11 @@ type verifLoopback struct {
 	route func(host string, port int) ActorSystem
 }
 
-func (l *verifLoopback) target(host string, port int) *actorSystem {
+func (l *verifLoopback) target(ctx context.Context, host string, port int) *actorSystem {
+	// like the TCP client, refuse to send once the caller's deadline has passed
+	if ctx.Err() != nil {
+		return nil
+	}
 	sys := l.route(host, port)
 	if sys == nil {
 		return nil
@@ -119,7 +123,7 @@ func (l *verifLoopback) RemoteActivateGrain(ctx context.Context, host string, po
 	if err != nil {
 		return err
 	}
-	t := l.target(host, port)
+	t := l.target(ctx, host, port)
 	if t == nil {
 		return gerrors.ErrRemoteSendFailure
 	}
@@ -143,7 +147,7 @@ func (l *verifLoopback) RemoteAskGrain(ctx context.Context, host string, port in
 	if err != nil {
 		return nil, gerrors.NewErrInvalidMessage(err)
 	}
-	t := l.target(host, port)
+	t := l.target(ctx, host, port)
 	if t == nil {
 		return nil, gerrors.ErrRemoteSendFailure
 	}
@@ -174,7 +178,7 @@ func (l *verifLoopback) RemoteTellGrain(ctx context.Context, host string, port i
 	if err != nil {
 		return gerrors.NewErrInvalidMessage(err)
 	}
-	t := l.target(host, port)
+	t := l.target(ctx, host, port)
 	if t == nil {
 		return gerrors.ErrRemoteSendFailure
 	}
@@ -198,7 +202,7 @@ func (l *verifLoopback) RemoteSpawn(ctx context.Context, host string, port int, 
 			MaxRetries:   spawnRequest.Singleton.MaxRetries,
 		}
 	}
-	t := l.target(host, port)
+	t := l.target(ctx, host, port)
 	if t == nil {
 		return nil, gerrors.ErrRemoteSendFailure
 	}
